@@ -43,9 +43,13 @@ def sh(cmd, cwd=None, timeout=1800):
 
 
 wt = "/tmp/mutcheck/%s%s%s" % (pid, letter, rnd)
-shutil.rmtree(wt, ignore_errors=True)
-sh("git -C /repo worktree prune")
-rc, out = sh("git -C /repo worktree add --detach %s HEAD" % wt)
+import fcntl
+os.makedirs("/tmp/mutcheck", exist_ok=True)
+with open("/tmp/mutcheck/.lock", "w") as _lk:   # several evaluations may run at once
+    fcntl.flock(_lk, fcntl.LOCK_EX)
+    shutil.rmtree(wt, ignore_errors=True)
+    sh("git -C /repo worktree prune")
+    rc, out = sh("git -C /repo worktree add --detach %s HEAD" % wt)
 assert rc == 0, out
 meta = {"property": pid, "id": "%s-%s%s" % (pid, letter, rnd), "source": "independent sub-agent given only the property text and a scratch worktree",
         "repo_head": sh("git -C /repo rev-parse --short HEAD")[1].strip(), "ran": []}
